@@ -91,6 +91,39 @@ func runC07(c *Ctx) bool {
 		evalC07(c, cs)
 		c.Progress(false)
 	}
+	// wide roots: one root with 128..400 children (some with a child of their own) and ONE name that
+	// is not a path element, at the first / a middle / the last child or below it
+	nWide := c.Pick(8, 60)
+	for j := 0; j < nWide; j++ {
+		i := idx
+		idx++
+		if !c.Mine(i) {
+			continue
+		}
+		r := gen.New(c.Seed, 702, uint64(j))
+		n := []int{128, 130, 200, 401}[j%4]
+		depths := []int{1}
+		names := []string{"wide"}
+		var childPos []int
+		for k := 0; k < n; k++ {
+			childPos = append(childPos, len(depths))
+			depths = append(depths, 2)
+			names = append(names, "c"+strconv.Itoa(k))
+			if k%3 == 0 {
+				depths = append(depths, 3)
+				names = append(names, "g"+strconv.Itoa(k))
+			}
+		}
+		at := childPos[[]int{0, n / 2, n - 1}[(j/4)%3]]
+		if j%2 == 1 && at+1 < len(depths) && depths[at+1] == 3 {
+			at++ // the grandchild
+		}
+		names[at] = []string{"../../escaped", "..", "a/b", "./x"}[r.Intn(4)]
+		cs := &Case{Idx: i, Kind: "wide-root", Depths: depths, Names: names, Seed: r.Uint64()}
+		c.Journal(cs)
+		evalC07(c, cs)
+		c.Progress(false)
+	}
 	return true
 }
 
